@@ -64,6 +64,7 @@ PROP = {  # subject prefix -> (properties, what failed before the repair)
  "a raw pyarrow type of temporal values is wrapped for pandas where the result is built": ("C12", "repair of an earlier fix: wrapping the pyarrow type inside _convert_timestamp_to_tz_unaware broke two tests of the pinned suite; the wrapping now happens in the pandas result builder"),
  "plain integer sums are not stopped at the null sentinel": ("C12 C01 C08", "repair of an earlier fix: int64 group sums / cumsum(skip_na=False) whose partial sum passed exactly through -2**63 (e.g. -2**62, -2**62, 5) returned -2**63 instead of the true sum, which is within the 64-bit range"),
  "a polars Enum key is categorical": ("C11", "GroupBy(pl.Series(..., dtype=pl.Enum(['c','b','a']))).sum(v) listed the labels in text order ['a','b'] instead of the declared category order ['b','a'] (pandas Categorical / pl.Categorical / Arrow dictionary keys keep theirs)"),
+ "partial sums of key chunks are added plainly": ("C03 C12 C01", "on chunk-factorized keys a chunk's int64 / timedelta partial sum equal to -2**63 was dropped by the nansum merge: GroupBy(pa.chunked_array([[5,5],[3,3],[4,3]])).sum([5,9,-2**62,-2**62,7,1]) gave {3: 1} instead of {3: -2**63+1} (whole keys); found through the side condition sum_closed that the Coq proof of the chunk merge had to assume"),
  "apply returns an empty result": ("C05 C09", "median/apply with nothing selected raised IndexError (was known finding K2)"),
 }
 log = subprocess.run(["git", "-C", "/repo", "log", "--format=%h %s", "be63ad5..HEAD"], stdout=subprocess.PIPE).stdout.decode().splitlines()
